@@ -1,8 +1,114 @@
 import Lean.Data.Json
-/- stub: the C06 driver is not built yet -/
-namespace Glom.C06.Driver
-open Lean
+import Glom.Model.C06
+import Glom.Model.C01
+import Glom.Generated.C06Facts
+/-
+  C06 driver: replays one history of cache-relevant operations through the cache model
+  (parse = the C01 model of `Path.from_text`, `_MAX_CACHE` from the regenerated facts) and compares
+  every path returned and the size of both sub-caches after every operation with what the
+  implementation reported; the Python-level observations (outcome equal to the fresh-interpreter
+  outcome, inputs unchanged) are part of the property verdict.
 
-def run (_j : Json) : Except String Json := .error "property C06: driver not implemented yet"
+  case: {"ops":[ {"op":"from_text","text":t,"impl_path":[[op,arg|null]…],"impl_sizes":[nTrue,nFalse]}
+               | {"op":"fill","prefix":p,"n":k,"impl_sizes":[…]}
+               | {"op":"set_star","v":b}
+               | {"op":"glom","same_as_fresh":b|null,"same_as_first":b,"inputs_unchanged":b,"impl_sizes":[…]}
+               | {"op":"register"} … ]}
+-/
+namespace Glom.C06.Driver
+open Lean Glom.C06
+
+abbrev PathRepr := List (String × Option String)
+
+/-- `Path.from_text` as modelled for C01, rendered as (op, arg) items -/
+def parseText (star : Bool) (text : String) : PathRepr :=
+  if star then
+    (Glom.C01.stepsOfParts (Glom.C01.partsOfText text.toList)).map (fun s =>
+      (s.1, match s.2 with | .str x => some x | _ => none))
+  else (text.splitOn ".").map (fun seg => ("P", some seg))
+
+def pathOfJson (j : Json) : Except String PathRepr := do
+  match j with
+  | .arr a => a.toList.mapM (fun e => match e with
+      | .arr #[.str op, .str arg] => pure (op, some arg)
+      | .arr #[.str op, .null] => pure (op, none)
+      | _ => throw s!"bad path item {e.compress}")
+  | _ => throw "bad path"
+
+def sizesOfJson (j : Json) : Except String (Nat × Nat) :=
+  match j with
+  | .arr #[a, b] => do return (← a.getNat?, ← b.getNat?)
+  | _ => throw "bad sizes"
+
+structure Acc where
+  pc : PathCache PathRepr := {}
+  star : Bool := true
+  agree : Bool := true
+  holds : Bool := true
+  why : String := ""
+  nOps : Nat := 0
+
+def sizesOK (a : Acc) (j : Json) : Bool :=
+  match j.getObjVal? "impl_sizes" with
+  | .ok s => match sizesOfJson s with
+    | .ok (t, f) => t == (a.pc.get true).length && f == (a.pc.get false).length
+    | .error _ => false
+  | .error _ => true
+
+def stepOp (maxCache : Nat) (a : Acc) (j : Json) : Except String Acc := do
+  let op ← j.getObjValAs? String "op"
+  let a := { a with nOps := a.nOps + 1 }
+  match op with
+  | "set_star" => return { a with star := (← j.getObjValAs? Bool "v") }
+  | "from_text" =>
+    let text ← j.getObjValAs? String "text"
+    let impl ← pathOfJson (← j.getObjVal? "impl_path")
+    let (p, pc') := fromText parseText maxCache a.star a.pc text
+    let a' := { a with pc := pc' }
+    -- the property: the answer is the fresh parse under the current flag
+    let ok := impl == parseText a.star text
+    let ag := impl == p && sizesOK a' j
+    let why := if !ok && a.why.isEmpty then s!"from_text({text}) differs from a fresh parse at op {a.nOps}" else a.why
+    return { a' with holds := a.holds && ok, agree := a.agree && ag, why := why }
+  | "fill" =>
+    let pre ← j.getObjValAs? String "prefix"
+    let n ← j.getObjValAs? Nat "n"
+    let pc' := (List.range n).foldl (fun pc i => (fromText parseText maxCache a.star pc s!"{pre}{i}").2) a.pc
+    let a' := { a with pc := pc' }
+    return { a' with agree := a.agree && sizesOK a' j }
+  | "glom" =>
+    let fresh := match j.getObjVal? "same_as_fresh" with
+      | .ok (.bool b) => b
+      | _ => true
+    let first := (j.getObjValAs? Bool "same_as_first").toOption.getD true
+    let unch := (j.getObjValAs? Bool "inputs_unchanged").toOption.getD true
+    let ok := fresh && first && unch
+    -- keep the model's cache in step with the texts this call parsed (observed as new cache keys)
+    let newKeys : List (Bool × String) := match j.getObjVal? "impl_new_keys" with
+      | .ok (.arr ks) => ks.toList.filterMap (fun e => match e with
+          | .arr #[.bool b, .str k] => some (b, k)
+          | _ => none)
+      | _ => []
+    let pc' := newKeys.foldl (fun pc bk => (fromText parseText maxCache bk.1 pc bk.2).2) a.pc
+    let a := { a with pc := pc' }
+    let a := { a with agree := a.agree && sizesOK a j }
+    let why := if !ok && a.why.isEmpty then
+        (if !unch then s!"target/spec/scope changed at op {a.nOps}"
+         else if !first then s!"outcome differs from the first time this call was made (op {a.nOps})"
+         else s!"outcome differs from the same call in a fresh interpreter (op {a.nOps})") else a.why
+    return { a with holds := a.holds && ok, why := why }
+  | "register" => return a
+  | _ => throw s!"unknown op {op}"
+
+def run (j : Json) : Except String Json := do
+  let ops ← (match j.getObjVal? "ops" with
+    | .ok (.arr a) => pure a.toList
+    | _ => throw "ops missing")
+  let a ← ops.foldlM (stepOp Generated.maxCache) {}
+  return Json.mkObj [("agree", a.agree), ("holds", a.holds), ("why", a.why),
+    ("model", Json.mkObj [("sizes", Json.arr #[toJson (a.pc.get true).length, toJson (a.pc.get false).length]),
+                          ("max_cache", toJson Generated.maxCache)]),
+    ("branch", if (a.pc.get true).length > Generated.maxCache || (a.pc.get false).length > Generated.maxCache
+               then "overflowed" else "within-capacity")]
 
 end Glom.C06.Driver
